@@ -76,6 +76,10 @@ def build(ctx, rnd, thorough):
         fat = rnd.randint(1, 60 if kind == "logix" else 20)
         scs.append(scenario(len(scs), rnd.choice(["LargeOK", "LargeRefused", "AllRefused", "SessionRefused"]), fk, fat, hist, rnd,
                             kind=kind, withblock=rnd.random() < 0.3))
+        if j % 3 == 0:                      # replies arrive in small TCP segments: the fault may fall inside a frame
+            scs[-1]["chunk"] = rnd.choice([30, 24, 7, 1])
+            scs[-1]["fault"] = None if fk == "none" else {"at": "op", "n": rnd.randint(1, 80), "kind": fk}
+            scs[-1]["family"] += "-segmented"
     return scs, n_model
 
 
